@@ -21,7 +21,10 @@ PROP = {
                    " Area Misc of the translator (tools/trspecs/Misc.py): ArrayBucket::pvMakeState / pvGetMemPoolIndex / pvGetFastCount / "
                    "pvGetFastMemPoolIndex and the state / size arithmetic of AddBackCrt and RemoveBack (state +-1 with int promotion, first heap capacity, "
                    "shrink rule) are TRANSLATED from the header text on every run and proved equal to the model (Proof/TrEqMisc2Bucket.lean; "
-                   "C08_state_byte_roundtrip_translated, C08_value_array_ops_translated)."),
+                   "C08_state_byte_roundtrip_translated, C08_value_array_ops_translated)."
+                   " Second wave (tools/trspecs/Wave2.py, Proof/TrEqWave2MMap.lean): the branch tests and counts of ArrayBucket::AddBackCrt / RemoveBack (first count, "
+                   "memPoolIndex > 0, count == memPoolIndex, newCount, newCount <= maxFastCount, heap state byte, count == 1) are translated; VArr.addBack is restated "
+                   "with every test and value from the header text (C08_value_array_tests_translated)."),
     "level_note": ("Trusted: Lean kernel + 3 standard axioms, extractor, harness (g++, -fno-access-control). Modelled not verified: object layout "
                    "of the value-array blocks and of momo::Array, memory pools behind the value arrays (only 'allocation refused' is an "
                    "input), relocation of values by memcpy / move; iterator provenance is modelled as 'can move / cannot move'. The HT instance "
@@ -31,6 +34,7 @@ PROP = {
         "Momo.MMap.C08_state_byte_roundtrip",
         "Momo.MMap.C08_state_byte_roundtrip_translated",
         "Momo.MMap.C08_value_array_ops_translated",
+        "Momo.MMap.C08_value_array_tests_translated",
         "Momo.MMap.C08_value_array_refines",
         "Momo.MMap.C08_value_array_rep",
         "Momo.MMap.C08_mm_refines",
